@@ -91,22 +91,12 @@ out:
 
 out_error:
     printf ("ERROR in encode\n");
-    if (encoded_data) {
-        for (i = 0; i < k; i++) {
-            if (encoded_data[i])
-                free_fragment_buffer(encoded_data[i]);
-        }
-        check_and_free_buffer(encoded_data);
-    }
-
-    if (encoded_parity) {
-        for (i = 0; i < m; i++) {
-            if (encoded_parity[i])
-                free_fragment_buffer(encoded_parity[i]);
-        }
-        check_and_free_buffer(encoded_parity);
-    }
-
+    /*
+     * The caller (liberasurecode_encode) owns encoded_data / encoded_parity:
+     * on error it converts the entries allocated so far back to fragment
+     * pointers and releases them together with the two arrays.  Freeing them
+     * here as well made the caller touch and free them a second time.
+     */
     goto out;
 }
 
